@@ -42,6 +42,9 @@ type GRoot struct {
 	Index map[string]*GNode
 	Pair  [2]*GNode
 	Any   interface{}
+	// user-declared pointers that may alias one another (shared *int)
+	Count *int
+	Other *int
 }
 
 // ---- descriptors ----
@@ -85,6 +88,8 @@ type RootDesc struct {
 	Pair    [2]int  `json:"pair"`
 	HasPair bool    `json:"has_pair,omitempty"`
 	Any     AnyDesc `json:"any"`
+	Count   int     `json:"count"` // index into the shared *int pool, -1 = nil
+	Other   int     `json:"other"`
 }
 
 type C03Case struct {
@@ -186,7 +191,12 @@ func genGraph(t *rapid.T) GraphDesc {
 
 func genRoot(t *rapid.T, g GraphDesc, label string, allowAny bool) RootDesc {
 	n := len(g.Nodes)
-	r := RootDesc{Index: -1, Pair: [2]int{-1, -1}, Any: AnyDesc{Kind: "nil"}}
+	r := RootDesc{Index: -1, Pair: [2]int{-1, -1}, Any: AnyDesc{Kind: "nil"}, Count: -1, Other: -1}
+	if len(g.Ints) > 0 {
+		// small pool: Count and Other often alias the same *int
+		r.Count = rapid.IntRange(-1, len(g.Ints)-1).Draw(t, label+"_count")
+		r.Other = rapid.IntRange(-1, len(g.Ints)-1).Draw(t, label+"_other")
+	}
 	if rapid.Bool().Draw(t, label+"_has_all") {
 		r.HasAll = true
 		for j, k := 0, rapid.IntRange(0, 4).Draw(t, label+"_all_len"); j < k; j++ {
@@ -382,6 +392,12 @@ func (gi *graphInst) root(r RootDesc) *GRoot {
 		out.Pair = [2]*GNode{gi.node(r.Pair[0]), gi.node(r.Pair[1])}
 	}
 	out.Any = gi.any(r.Any)
+	if r.Count >= 0 && r.Count < len(gi.ints) {
+		out.Count = gi.ints[r.Count]
+	}
+	if r.Other >= 0 && r.Other < len(gi.ints) {
+		out.Other = gi.ints[r.Other]
+	}
 	return out
 }
 
@@ -663,9 +679,21 @@ func runC03(c C03Case) vrt.Verdict {
 			if lay.Any != nil {
 				lv.FieldByName("Any").Set(reflect.ValueOf(lay.Any))
 			}
+			if lay.Count != nil {
+				lv.FieldByName("Count").Set(reflect.ValueOf(lay.Count))
+			}
+			if lay.Other != nil {
+				lv.FieldByName("Other").Set(reflect.ValueOf(lay.Other))
+			}
 			return lv
 		}
-		want := &GRoot{All: def.All, Index: def.Index, Pair: def.Pair}
+		want := &GRoot{All: def.All, Index: def.Index, Pair: def.Pair, Count: def.Count, Other: def.Other}
+		if lay.Count != nil {
+			want.Count = lay.Count
+		}
+		if lay.Other != nil {
+			want.Other = lay.Other
+		}
 		if c.Layer.HasAll {
 			want.All = lay.All
 		}
